@@ -216,8 +216,8 @@ func (m Mut) String() string {
 		return fmt.Sprintf("trunc@%d", m.Off)
 	case "flip":
 		return fmt.Sprintf("flip@%d.%d", m.Off, m.Bit)
-	case "field":
-		return fmt.Sprintf("field:%s<-%d", m.Field, m.Val)
+	case "field", "fieldfix":
+		return fmt.Sprintf("%s:%s<-%d", m.Kind, m.Field, m.Val)
 	}
 	return fmt.Sprintf("%s@%d/%d/%d", m.Kind, m.Off, m.Len, m.Val)
 }
@@ -348,7 +348,7 @@ func (l *Layout) ApplyMuts(muts []Mut) []byte {
 			img = append(img, NewRng(m.Val).Bytes(m.Len)...)
 		case "garbage":
 			img = NewRng(m.Val).Bytes(m.Len)
-		case "field":
+		case "field", "fieldfix":
 			f, ok := l.field(m.Field)
 			if !ok || f.Off+int64(f.Len) > int64(len(img)) {
 				continue
@@ -367,6 +367,14 @@ func (l *Layout) ApplyMuts(muts []Mut) []byte {
 				enc = cborHead(2, m.Val)
 			}
 			img = append(img[:f.Off], append(enc, img[f.Off+int64(f.Len):]...)...)
+			if delta := int64(len(enc) - f.Len); m.Kind == "fieldfix" && delta != 0 && l.Spec.V2 && f.Off >= l.DataOffset && f.Off < l.DataOffset+l.DataSize && len(img) >= 51 {
+				// a field inside the payload changed its encoded length: keep the container consistent
+				// (payload size and index offset follow), as a producer of a hostile file would
+				binary.LittleEndian.PutUint64(img[35:], uint64(l.DataSize+delta))
+				if l.IndexOffset != 0 {
+					binary.LittleEndian.PutUint64(img[43:], uint64(l.IndexOffset+delta))
+				}
+			}
 		default:
 			panic(&InfraError{"unknown mutation " + m.Kind})
 		}
@@ -418,6 +426,13 @@ func GenImageSpec(r *Rng, maxBlocks int) ImageSpec {
 		} else {
 			s.Roots = append(s.Roots, BlkSpec{Kind: Pick(r, []string{"raw", "cbor", "v0"}), Seed: uint64(r.Intn(4)), Size: r.Range(0, 30)})
 		}
+	}
+	// a CID that is longer than any hash function makes one (an inline block of a few hundred bytes):
+	// longer than the fixed-size heads and look-ahead buffers a reader may decode CIDs from
+	if r.Chance(1, 10) && len(s.Blocks) < maxBlocks+2 {
+		at := r.Intn(len(s.Blocks) + 1)
+		big := BlkSpec{Kind: "id", Seed: uint64(60 + r.Intn(3)), Size: Pick(r, []int{124, 130, 270, 600})}
+		s.Blocks = append(s.Blocks[:at:at], append([]BlkSpec{big}, s.Blocks[at:]...)...)
 	}
 	return s
 }
